@@ -5,6 +5,7 @@ CONSTANTS
   Names = {"a", "b"}
   MaxCost = 3
   Directed = TRUE
+  Canonical = FALSE
   NestedOrFixed = FALSE
 INVARIANTS RT GenSound Emit
 CHECK_DEADLOCK FALSE
